@@ -73,8 +73,21 @@ def r17a(ctx):
             and c.func.attr == "add" and dotted(c.func.value) == treev and c.lineno > w.lineno]
     # a local closure that re-adds (defined inside make_distinct) counts once per call made after the refinement loop
     closures = {d.name: d for d in ast.walk(f.node) if isinstance(d, ast.FunctionDef) and d is not f.node}
+    tree_name = {nm: treev for nm in closures}
+    # module-level helpers that are handed the tree (`_reinsert_if_overlapping(tree, b)`) are read like closures, with the
+    # parameter that receives the tree standing for it
+    for c in walk_no_nested(f.node):
+        if isinstance(c, ast.Call) and isinstance(c.func, ast.Name) and c.func.id not in closures and any(dotted(a) == treev for a in c.args):
+            r_ = m.resolve_expr(f.module, c.func)
+            h_ = m.functions.get(r_[0][1]) if r_ and r_[0] and r_[0][0] == "func" else None
+            if h_ is not None:
+                hp = func_params(h_.node)
+                pos = next(i_ for i_, a in enumerate(c.args) if dotted(a) == treev)
+                if pos < len(hp):
+                    closures[c.func.id] = h_.node
+                    tree_name[c.func.id] = hp[pos]
     closure_adds = {nm: [c for c in ast.walk(d) if isinstance(c, ast.Call) and isinstance(c.func, ast.Attribute) and c.func.attr == "add"
-                         and dotted(c.func.value) == treev] for nm, d in closures.items()}
+                         and dotted(c.func.value) == tree_name[nm]] for nm, d in closures.items()}
     closure_calls = [c for c in walk_no_nested(f.node) if isinstance(c, ast.Call) and isinstance(c.func, ast.Name) and c.func.id in closures
                      and closure_adds[c.func.id] and c.lineno > w.lineno]
     def only_overlap_guard(c):
@@ -85,8 +98,20 @@ def r17a(ctx):
         if p_ is None:
             return False
         t = p_.test
-        return isinstance(t, ast.Call) and isinstance(t.func, ast.Attribute) and t.func.attr == "overlaps" \
-            and dotted(t.func.value) == treev and (p_.lineno > w.lineno or any(p_ in list(ast.walk(d)) for d in closures.values()))
+        owner = next((nm for nm, d in closures.items() if any(p_ is x for x in ast.walk(d))), None)
+        direct = isinstance(t, ast.Call) and isinstance(t.func, ast.Attribute) and t.func.attr == "overlaps" \
+            and dotted(t.func.value) == (tree_name[owner] if owner else treev) and (owner is not None or p_.lineno > w.lineno)
+        if not direct:
+            return False
+        # ... and nothing else decides: any other condition that takes effect after the refinement loop (a `continue` guard,
+        # an enclosing test) withholds an interval that still overlaps something
+        in_closure = any(p_ in list(ast.walk(d)) for d in closures.values())
+        for t2, pol, origin in dominating_conditions(c):
+            if t2 is t:
+                continue
+            if in_closure or getattr(origin, "lineno", 0) > w.lineno:
+                return False
+        return True
     all_adds = adds + [a for c in closure_calls for a in closure_adds[c.func.id]]
     ok = all_adds and all(only_overlap_guard(c) for c in all_adds)
 
